@@ -2,7 +2,7 @@
    classes satisfy cc_ok; refutations and necessity witnesses by computation. *)
 From Coq Require Import ZifyBool.
 From Boltons Require Import Lib.Prelude Lib.C16_Text Spec.C16_Spec Model.C16_Model Gen.C16_Gen
-  Spec.C16_Re Proofs.C16_Text Proofs.C16_Regex Proofs.C16_Parse Proofs.C16_Format Proofs.C16_ReEquiv.
+  Spec.C16_Re Proofs.C16_Text Proofs.C16_Regex Proofs.C16_Parse Proofs.C16_Fold Proofs.C16_Format Proofs.C16_ReEquiv.
 Open Scope N_scope.
 
 (* ---- CPython's classes are lawful -------------------------------------------------------- *)
@@ -58,6 +58,9 @@ Proof.
     revert lo hi Hin Hc. cut (forallb (fun r => forallb (fun r0 : N * N => (snd r <? fst r0) || (snd r0 <? fst r)) py_break_ranges) py_digit_ranges = true).
     + intros G lo hi Hin _. rewrite forallb_forall in G. exact (G (lo, hi) Hin).
     + vm_compute. reflexivity.
+  - intros c Hc. cbn [dg_val]. unfold val_ranges, py_digit_ranges. cbn [find fst snd].
+    replace ((48 <=? c) && (c <=? 57)) with true by (symmetry; apply andb_true_iff; split; apply N.leb_le; lia).
+    cbn [fst]. apply N.mod_small. lia.
 Qed.
 
 (* ---- first half ------------------------------------------------------------------------------ *)
@@ -71,10 +74,9 @@ Qed.
 Lemma markers_none n : markers_ok (repeat None n) = true.
 Proof. induction n; [reflexivity|exact IHn]. Qed.
 
-Lemma wf_funcs C T : wf C T = true ->
-  forallb (fun f => match f_func f with Some _ => true | None => false end) (t_frames T) = true.
+Lemma wf_funcs C T : wf C T = true -> has_funcs (t_frames T) = true.
 Proof.
-  unfold wf. intro H. apply andb_true_iff in H as [H _]. apply andb_true_iff in H as [H _].
+  unfold wf, has_funcs. intro H. apply andb_true_iff in H as [H _]. apply andb_true_iff in H as [H _].
   induction (t_frames T) as [|f fs IH]; [reflexivity|]. cbn [forallb] in *.
   apply andb_true_iff in H as [Hf H]. rewrite (IH H), andb_true_r.
   destruct f as [p n [g|] s]; [reflexivity|]. apply frame_ok_inv in Hf as [_ [_ [Hg _]]]. discriminate.
@@ -96,23 +98,25 @@ Section Main.
   Definition parse_print (s : str) : res str :=
     match from_string C s with Ok T => to_string T | Raise e => Raise e end.
 
-  Theorem text_roundtrip T : wf C T = true -> parse_print (plain_text T) = Ok (plain_text T).
-  Proof. intro H. unfold parse_print. rewrite (parse_plain T H). apply to_string_plain. exact (wf_funcs C T H). Qed.
+  (* the interpreter's rendering (recursive entries folded) is read back entry by entry and
+     printed back exactly *)
+  Theorem parse_std_text T :
+    wf C T = true -> src_consistent (t_frames T) = true -> from_string C (std_text T) = Ok T.
+  Proof. apply (parse_std C OK). Qed.
 
-  Theorem marked_roundtrip T ms :
-    wf C T = true -> markers_ok ms = true -> length ms = length (t_frames T) ->
-    parse_print (marked_text T ms) = Ok (plain_text T).
+  Theorem text_roundtrip T :
+    wf C T = true -> src_consistent (t_frames T) = true -> parse_print (std_text T) = Ok (std_text T).
   Proof.
-    intros H Hm Hl. unfold parse_print. rewrite (parse_marked C OK T ms H Hm Hl).
-    apply to_string_plain. exact (wf_funcs C T H).
+    intros H Hc. unfold parse_print. rewrite (parse_std C OK T H Hc). apply to_string_std. exact (wf_funcs C T H).
   Qed.
 
-  (* on the interpreter's own rendering, outside the recorded finding *)
-  Theorem std_roundtrip_partial T :
-    wf C T = true -> long_repeat (t_frames T) = false ->
-    from_string C (std_text T) = Ok T /\ parse_print (std_text T) = Ok (std_text T).
+  (* marker lines are dropped, nothing else *)
+  Theorem marked_roundtrip T ms :
+    wf C T = true -> markers_ok ms = true -> length ms = length (t_frames T) ->
+    parse_print (marked_text T ms) = Ok (std_text T).
   Proof.
-    intros H Hr. rewrite (std_text_plain T Hr). split; [apply parse_plain|apply text_roundtrip]; exact H.
+    intros H Hm Hl. unfold parse_print. rewrite (parse_marked C OK T ms H Hm Hl).
+    apply to_string_std. exact (wf_funcs C T H).
   Qed.
 
   (* ---- second half ----------------------------------------------------------------------------- *)
@@ -127,12 +131,10 @@ Section Main.
   Proof. cbv zeta. repeat split. apply callpoint_line. Qed.
 
   (* ExceptionInfo's text is read back by ParsedException *)
-  Theorem format_reparse_partial fs e :
-    wf C (ei_tb C fs e) = true -> long_repeat (map (std_frame C) fs) = false ->
+  Theorem format_reparse fs e :
+    wf C (ei_tb C fs e) = true -> src_consistent (map (std_frame C) fs) = true ->
     from_string C (ei_text C fs e) = Ok (ei_tb C fs e).
-  Proof.
-    intros H Hr. rewrite ei_text_std, std_text_plain by exact Hr. apply parse_plain. exact H.
-  Qed.
+  Proof. intros H Hc. rewrite ei_text_std. apply (parse_std C OK); [exact H|exact Hc]. Qed.
 
   (* line numbers printed by str(int) are always acceptable to the parser *)
   Lemma dec_lineno_ok n : lineno_ok C (dec n) = true.
@@ -165,18 +167,8 @@ Proof.
 Qed.
 
 (* ---- the refuted full statements (recorded findings) ------------------------------------------------ *)
-Lemma std_roundtrip_refuted :
-  exists T, wf py_cc T = true /\ from_string py_cc (std_text T) <> Ok T.
-Proof. exists rec_tb. split; [vm_compute; reflexivity|]. vm_compute. discriminate. Qed.
-
 Definition rec_live : live_frame := mkLive [114;46;112;121] 7 [102] [32;32;102;40;41;10].
 Definition rec_exc : live_exc := mkExc L_builtins [69] [69] (Some []) [69].
-
-(* ExceptionInfo's own text is no longer read back once it is folded *)
-Lemma format_reparse_refuted :
-  exists fs e, wf py_cc (ei_tb py_cc fs e) = true /\
-               from_string py_cc (ei_text py_cc fs e) <> Ok (ei_tb py_cc fs e).
-Proof. exists (repeat rec_live 5), rec_exc. split; [vm_compute; reflexivity|]. vm_compute. discriminate. Qed.
 
 (* the two recorded reasons on the formatting side: a display-time suggestion, a failing __str__ *)
 Definition hint_exc : live_exc :=      (* AttributeError: no attribute 'bluch'. Did you mean: 'blech'? *)
@@ -216,6 +208,9 @@ Definition bad_func_quote : tb := base (fr "a.py" "1" "g"", line 3, in y" "x") "
 Definition bad_lineno : tb := base (fr "a.py" "1a" "f" "x") "E" "m".
 Definition bad_src_space : tb := base (fr "a.py" "1" "f" " x") "E" "m".
 Definition bad_src_frame : tb := base (fr "a.py" "1" "f" "File ""q"", line 3, in z") "E" "m".
+Definition bad_src_fold : tb := mkTb [fr "a.py" "1" "f" "x"; fr "a.py" "2" "g" "[Previous line repeated 2 more times]"] [69] [109].
+Definition bad_inconsistent : tb :=    (* five entries at the same place, the last showing another text *)
+  mkTb (repeat (fr "a.py" "1" "f" "x") 4 ++ [fr "a.py" "1" "f" "y"]) [69] [109].
 Definition bad_type_colon : tb := base (fr "a.py" "1" "f" "x") "a: b" "m".
 Definition bad_type_carets : tb := base (fr "a.py" "1" "f" "x") "^^" "".
 Definition bad_type_space : tb := base (fr "a.py" "1" "f" "") " E" "m".
